@@ -200,6 +200,14 @@ def build_clis():
         rc, so, se = vlib.run(cmd, cwd=vlib.REPO, env=vlib.goenv(), timeout=900)
     if rc != 0 or not all(os.path.exists(_bin(c)) for c in CLIS):
         raise vlib.BuildError("go build of cmd/{%s} failed:\n%s%s" % (",".join(CLIS), so, se))
+    # neuralbond once more with the race detector (needs cgo; skipped with a note when that is not available)
+    with vlib.Lock("go"):
+        if os.path.exists(_bin("neuralbond-race")):
+            os.remove(_bin("neuralbond-race"))
+        env = vlib.goenv()
+        env["CGO_ENABLED"] = "1"
+        vlib.run(["go", "build", "-race", "-tags", "verif", "-o", _bin("neuralbond-race"), "./cmd/neuralbond"],
+                 cwd=vlib.REPO, env=env, timeout=900)
 
 
 def _corp(*p):
@@ -261,6 +269,18 @@ def make_jobs(thorough, stage_dir):
                              "cwd_out": True,
                              "argv": [_bin("bondmachine"), "-bondmachine-file", os.path.join(st2, "bm.json"), "-create-verilog",
                                       "-verilog-flavor", "iverilog", "-verilog-simulation", "-simbox-file", _corp("empty_simbox.json")]})
+    # neuralbond on a net with more than 64 weights that all feed the same two nodes (any per-node counter
+    # updated from several goroutines is contended): always 16 threads, at least 10 runs; and once under
+    # the race detector
+    fan = _corp("net_fanin_640_2_1.json")
+    if os.path.exists(fan):
+        jobs.append({"tool": "neuralbond", "kind": "neuralbond-fanin", "inputs": [fan], "gomaxprocs": "16", "min_runs": 10,
+                     "argv": [_bin("neuralbond"), "-net-file", fan, "-neuron-lib-path", lib, "-data-type", "float32",
+                              "-save-basm", "{out}/net.basm"]})
+        if os.path.exists(_bin("neuralbond-race")):
+            jobs.append({"tool": "neuralbond", "kind": "neuralbond-race", "inputs": [fan], "gomaxprocs": "4", "max_runs": 1, "race": True,
+                         "argv": [_bin("neuralbond-race"), "-net-file", fan, "-neuron-lib-path", lib, "-data-type", "float32",
+                                  "-save-basm", "{out}/net.basm"]})
     # bondmachine -create-verilog on every machine assembled from the corpus (skipped when basm refused the input)
     for bj in [j for j in jobs if j["kind"] == "basm"]:
         tag = os.path.basename(bj["inputs"][0]).replace(".basm", "")
@@ -309,18 +329,25 @@ def run_once(job, rundir, gomaxprocs):
     if job.get("may_hang") and rc == 2 and b"all goroutines are asleep - deadlock" in se:
         rc = -9  # bondgo's allocator / usage-monitor deadlock (C12): same defect as the hang, detected by the Go runtime
     files = {"<stdout>": so}
+    race = None
+    if job.get("race") and b"WARNING: DATA RACE" in se:
+        race = se[:3000].decode("utf-8", "replace")
     for dp, dn, fn in os.walk(rundir):
         for f in sorted(fn):
             full = os.path.join(dp, f)
             files[os.path.relpath(full, rundir)] = open(full, "rb").read()
-    return {"rc": rc, "files": files, "stderr": se[-600:].decode("utf-8", "replace"), "gomaxprocs": gomaxprocs}
+    return {"rc": rc, "files": files, "stderr": se[-600:].decode("utf-8", "replace"), "gomaxprocs": gomaxprocs, "race": race}
 
 
 def run_job(job, r, scratch):
     """r fresh runs of one job; returns (runs, diffs) — diffs = list of (name, i, j) differing artefacts"""
     runs = []
+    r = max(r, job.get("min_runs", 0))
+    if "max_runs" in job:
+        r = min(r, job["max_runs"])
     for k in range(r):
-        runs.append(run_once(job, os.path.join(scratch, "j%d" % job["id"], "r%d" % k), GOMAXPROCS[k % len(GOMAXPROCS)]))
+        runs.append(run_once(job, os.path.join(scratch, "j%d" % job["id"], "r%d" % k),
+                             job.get("gomaxprocs") or GOMAXPROCS[k % len(GOMAXPROCS)]))
     return runs
 
 
@@ -394,7 +421,8 @@ def table_diagnosis(sites, rows):
             continue
         if s["id"] in by_id:
             changed.append({"site": s["id"], "line": s["line"], "class_now": s["class"],
-                            "class_in_table": [r["cls"] for r in by_id[s["id"]]]})
+                            "class_in_table": [r["cls"] for r in by_id[s["id"]]],
+                            **({"now": s["note"]} if s.get("note") else {})})
         else:
             unclassified.append({"site": s["id"], "line": s["line"], "class": s["class"]})
     ids = [r["id"].encode() for r in rows]
@@ -487,6 +515,9 @@ def judge(rep, jobs, results, r):
         elif done and len(samples) < 8:
             samples.append({"tool": job["tool"], "kind": job["kind"], "input": job["inputs"][0], "exit": done[0]["rc"],
                             "stderr_tail": done[0]["stderr"][-200:], "identical": not diffs})
+        raced = [x for x in runs if x.get("race")]
+        if raced:
+            violations.append({"kind": "data-race", "job": job, "report": raced[0]["race"]})
         if not job.get("may_hang") and hangs:
             violations.append({"kind": "timeout", "job": job, "detail": "%d of %d runs exceeded %ds" % (hangs, len(runs), TIMEOUT)})
         # attribute every differing artefact
@@ -547,6 +578,14 @@ def report(rep, violations, known_hits, listed, pr, diag, static):
         merged.append(v)
     for v in merged:
         job = v["job"]
+        if v["kind"] == "data-race":
+            # goroutines of a build tool write shared memory without synchronisation: the artefact depends on
+            # goroutine timing (the repeated runs may or may not hit the lost update); the race detector's
+            # report is the witness
+            rep.violation({"property": PROP, "kind": "data-race-in-build-tool", "tool": job["tool"], "argv": job["argv"],
+                           "inputs": job["inputs"], "race_report": v["report"], "job_kind": job["kind"],
+                           "replay": "python3 tools/check.py C07 --replay <this file>"})
+            continue
         if v["kind"] == "timeout":
             rep.violation({"property": PROP, "kind": "timeout", "tool": job["tool"], "argv": job["argv"], "inputs": job["inputs"],
                            "detail": v["detail"], "job_kind": job["kind"]})
@@ -566,7 +605,8 @@ def report(rep, violations, known_hits, listed, pr, diag, static):
                           + "; ".join("%s [%s] line %d" % (u["site"], u["class"], u["line"]) for u in unclassified[:8]))
         if changed:
             broken.append("sites whose loop body changed class: "
-                          + "; ".join("%s now [%s], table has %s" % (c["site"], c["class_now"], c["class_in_table"]) for c in changed[:8]))
+                          + "; ".join("%s now [%s]%s, table has %s" % (c["site"], c["class_now"], (" = " + c["now"][:300]) if c.get("now") else "",
+                                                                       c["class_in_table"]) for c in changed[:8]))
         if unsorted:
             broken.append("table rows out of order (keep BMV/SchedExpect.lean sorted by id): " + "; ".join(unsorted[:5]))
         # the wider search is the repeated-run comparison above
